@@ -1,5 +1,5 @@
 """C15 — fixing restricts the design space exactly; freeing restores it (histories of fix/free vs the model's restriction)."""
-from props import _ops
+from props import _ops, _proc
 import dsgcase
 
 ID = 'C15'
@@ -13,9 +13,14 @@ RULE = ('as C05, histories biased to fix/free: get_all_discrete_x under fixed va
         'must be rejected with ValueError and leave the state unchanged; after freeing everything rows and decodes must equal '
         'the original ones; non-trivial = history of at least 2 executed operations')
 TRUSTED = ['rows are compared in -1 form (inactive entries), continuous entries as 0']
-PARTIAL = ['fixing connection-choice variables (must be rejected) is covered with the connection machinery']
-batches = _ops.make_batches('C15', 600, 6000, n_ops=(8, 14))
-run_case = _ops.make_run_case(CLAUSES)
+RULE += ('; second batch: processors over graphs with 1-2 connection choices: fixing a connection-choice variable must be rejected '
+         'and leave des_vars / fixed_values unchanged, decodes under one fixed selection variable stay architectures of the model, '
+         'and after freeing the enumerated rows decode to what they decoded to before')
+PARTIAL = ['statistics under fixed values (imputation ratio, design-space counts) are compared with a fresh processor holding the same '
+           'fixed values, not with a model of their definition']
+CONN_CLAUSES = ('rejected-fix-changes-the-problem', 'fix-or-free-raises', 'decode-after-free-gives-another-architecture')
+batches = _proc.add_conn_batch(_ops.make_batches('C15', 600, 6000, n_ops=(8, 14)), 'C15')
+run_case = _proc.wrap_run_case(_ops.make_run_case(CLAUSES), CONN_CLAUSES)
 compare = _ops.compare
-shrink_candidates = _ops.shrink_candidates
-match_known = dsgcase.match_known
+shrink_candidates = _proc.wrap_shrink(_ops.shrink_candidates)
+match_known = _proc.wrap_match_known(dsgcase.match_known)
